@@ -500,7 +500,6 @@ func c03Expected(in *c03Input) [][]string {
 			exps = append(exps, &c03ExpState{e: op.Exp, id: k, repeat: op.Exp.Times})
 		case "call":
 			args := c03CalledArgs(in, m, op)
-			calls = append(calls, [2]any{op.M, args})
 			var found, consumed *c03ExpState
 			for _, x := range exps {
 				if x.e.M == op.M && tokensMatch(c03Matchers(m, x.e), args) {
@@ -516,6 +515,7 @@ func c03Expected(in *c03Input) [][]string {
 				evs = append(evs, "failed unexpected-call")
 				break
 			}
+			calls = append(calls, [2]any{op.M, args}) // testify logs a call only once an expectation was found
 			if found.repeat == 1 {
 				found.repeat = -1
 			} else if found.repeat > 1 {
